@@ -120,6 +120,10 @@ type Input struct {
 	TimeZone         string   `json:"timeZone"`
 	Policy           Policy   `json:"policy"`
 	InFlight         string   `json:"inFlight"`
+	Identities       string   `json:"identities"`
+	OtherSignature   string   `json:"otherSignature"`
+	Scheme           string   `json:"scheme"`
+	CertWindow       string   `json:"certWindow"`
 
 	// concretisation only: what the blob readers are wrapped in (gates of a pinned interleaving, yields)
 	wrapSign, wrapVerify func(io.Reader) io.Reader
@@ -190,15 +194,18 @@ type world struct {
 	blobs map[int][]*blobData // by size class
 	// shared objects: one GenericSigner per key and constructor, ONE PluginSigner per plugin kind
 	// (the key behind its key id changes between calls), ONE verifier per identity style
-	signers   map[string]*signerObj
-	verifiers map[verifierKey]bothVerifier
-	mu        sync.Mutex // guards the two maps and the history of the signer objects (concurrent stages)
-	inFlight  bool       // a concurrent stage runs: time.Local is left alone (it is process-wide)
+	signers      map[string]*signerObj
+	verifiers    map[verifierKey]bothVerifier
+	stranger     bothSigner // a signer NO policy of this harness trusts (its chain is in no trust store)
+	strangerRoot *x509.Certificate
+	mu           sync.Mutex // guards the two maps and the history of the signer objects (concurrent stages)
+	inFlight     bool       // a concurrent stage runs: time.Local is left alone (it is process-wide)
 }
 
 type verifierKey struct {
-	exact  bool
-	policy Policy
+	exact      bool
+	policy     Policy
+	identities string
 }
 
 func newWorld(c *common.Ctx) *world {
@@ -227,6 +234,13 @@ func newWorld(c *common.Ctx) *world {
 		roots = append(roots, chain.Root().Cert)
 	}
 	w.store.Certs["ca:c07"] = roots
+	w.store.Certs["signingAuthority:c07"] = roots
+	sch := common.MakeChain(common.ChainOpts{Tag: "c07-stranger"})
+	sgs, err := signer.NewGenericSigner(sch.Leaf().Key, sch.X509())
+	if err != nil {
+		panic(err)
+	}
+	w.stranger, w.strangerRoot = sgs, sch.Root().Cert
 	// a tsa store the statements may name; no signature of this harness carries a timestamp
 	tsaRoot := common.MakeChain(common.ChainOpts{Tag: "c07-tsa"}).Root().Cert
 	w.store.Certs["tsa:c07tsa"] = []*x509.Certificate{tsaRoot}
@@ -273,6 +287,8 @@ type signPlugin struct {
 	envelope bool
 	tamper   string // envelope plugin: what it does to the payload it is given (set per call)
 	ext      string // envelope plugin: the extended signed attributes it adds (set per call)
+	scheme   string // envelope plugin: "x509" or "signingAuthority" (set per call)
+	window   string // signingAuthority: validity of the certificate minted at signing time (set per call)
 }
 
 // extended signed attributes an envelope plugin writes of its own (it names no verification plugin)
@@ -378,7 +394,29 @@ func (p *signPlugin) GenerateEnvelope(ctx context.Context, req *pluginfw.Generat
 		return nil, errors.New("not an envelope plugin")
 	}
 	kw, _ := p.key(req.PluginConfig)
-	ls, err := signature.NewLocalSigner(kw.chain.X509(), kw.key)
+	certs := kw.chain.X509()
+	now := time.Now()
+	scheme := signature.SigningSchemeX509
+	if p.scheme == "signingAuthority" {
+		// a signing service: ONE clock reading is the authentic signing time and the start (or end) of the validity of
+		// the short-lived certificate it mints for this signature (both have a resolution of one second)
+		scheme = signature.SigningSchemeX509SigningAuthority
+		now = now.Truncate(time.Second)
+		nb, na := now.Add(-time.Hour), now.Add(24*time.Hour)
+		switch p.window {
+		case "notBeforeIsSigningTime":
+			nb = now
+		case "notAfterIsSigningTime":
+			na = now
+		case "oneSecond":
+			nb, na = now, now
+		}
+		leaf := kw.chain.Leaf().Cert
+		minted := common.MakeCert(common.CertOpts{RawSubject: leaf.RawSubject, Key: kw.key, Parent: kw.chain.Certs[1],
+			EKU: []x509.ExtKeyUsage{x509.ExtKeyUsageCodeSigning}, NotBefore: nb, NotAfter: na})
+		certs = append([]*x509.Certificate{minted.Cert}, certs[1:]...)
+	}
+	ls, err := signature.NewLocalSigner(certs, kw.key)
 	if err != nil {
 		return nil, err
 	}
@@ -389,8 +427,8 @@ func (p *signPlugin) GenerateEnvelope(ctx context.Context, req *pluginfw.Generat
 	sr := &signature.SignRequest{
 		Payload:       signature.Payload{ContentType: req.PayloadType, Content: tamperPayload(p.tamper, req.Payload)},
 		Signer:        ls,
-		SigningTime:   time.Now(),
-		SigningScheme: signature.SigningSchemeX509,
+		SigningTime:   now,
+		SigningScheme: scheme,
 		SigningAgent:  "c07-plugin/1.0.0",
 
 		ExtendedSignedAttributes: extAttributes(p.ext),
@@ -603,6 +641,10 @@ func (rd Reader) reader(content []byte) io.Reader {
 }
 
 const copyChunk = 32 * 1024 // io.Copy's buffer; scripted reads never exceed it
+
+var identityLists = []string{"plain", "foreignBefore", "foreignAfter", "foreignBetween"}
+var otherSignatures = []string{"none", "strangerBeforeOtherFormat", "strangerBeforeSameFormat", "strangerAfterOtherFormat", "strangerAfterSameFormat"}
+var certWindows = []string{"wide", "notBeforeIsSigningTime", "notAfterIsSigningTime", "oneSecond"}
 
 var verifyTimestamps = []string{"unset", "always", "afterCertExpiry"}
 
@@ -866,10 +908,15 @@ type signedCase struct {
 // verification of the run): wildcard identity, or the exact subjects of the six signing certificates.
 const ociScope = "reg.example/c07"
 
-func (w *world) sharedVerifier(exact bool, pol Policy) bothVerifier {
+const foreignIdentity = "com.example.kms.key:projects/p/locations/l/keyRings/r/cryptoKeys/k1"
+
+func (w *world) sharedVerifier(exact bool, pol Policy, identities string) bothVerifier {
 	w.mu.Lock()
 	defer w.mu.Unlock()
-	key := verifierKey{exact, pol}
+	if !exact {
+		identities = "plain" // the wildcard stands alone
+	}
+	key := verifierKey{exact, pol, identities}
 	if v, ok := w.verifiers[key]; ok {
 		return v
 	}
@@ -878,6 +925,15 @@ func (w *world) sharedVerifier(exact bool, pol Policy) bothVerifier {
 		ids = nil
 		for _, name := range specNames {
 			ids = append(ids, w.keys[name].subject)
+		}
+		// plugin-defined identities (left to verification plugins) anywhere in the list
+		switch identities {
+		case "foreignBefore":
+			ids = append([]string{foreignIdentity}, ids...)
+		case "foreignAfter":
+			ids = append(ids, foreignIdentity)
+		case "foreignBetween":
+			ids = append(append(append([]string{}, ids[:3]...), foreignIdentity, "com.example.other:x"), ids[3:]...)
 		}
 	}
 	sv := trustpolicy.SignatureVerification{VerificationLevel: "strict",
@@ -888,7 +944,7 @@ func (w *world) sharedVerifier(exact bool, pol Policy) bothVerifier {
 	case "afterCertExpiry":
 		sv.VerifyTimestamp = trustpolicy.OptionAfterCertExpiry
 	}
-	stores := []string{"ca:c07"}
+	stores := []string{"ca:c07", "signingAuthority:c07"}
 	if pol.TSAStore {
 		stores = append(stores, "tsa:c07tsa")
 	}
@@ -1016,6 +1072,7 @@ func (w *world) sign(in Input, content []byte) *signedCase {
 	if obj.plugin != nil {
 		obj.plugin.tamper = in.Tamper
 		obj.plugin.ext = in.ExtAttrs
+		obj.plugin.scheme, obj.plugin.window = in.Scheme, in.CertWindow
 		switch via {
 		case "rotated":
 			// the key behind the key id has been switched since the previous call
@@ -1086,11 +1143,29 @@ func (w *world) sign(in Input, content []byte) *signedCase {
 		if in.ByTag {
 			signRef = "reg.example/c07:" + tagName
 		}
+		// somebody the policy does not trust signs the same artifact through SignOCI too, before or after, in the
+		// same or the other envelope format
+		strangerSigns := func() {
+			f := formatOf[in.Format]
+			if in.OtherSignature == "strangerBeforeOtherFormat" || in.OtherSignature == "strangerAfterOtherFormat" {
+				f = formatOf[map[string]string{"jws": "cose", "cose": "jws"}[in.Format]]
+			}
+			if _, _, err := notation.SignOCI(ctx, w.stranger, repo, notation.SignOptions{
+				SignerSignOptions: notation.SignerSignOptions{SignatureMediaType: f}, ArtifactReference: sc.ref}); err != nil {
+				panic(fmt.Sprintf("c07: the stranger cannot sign: %v", err))
+			}
+		}
+		if in.OtherSignature == "strangerBeforeOtherFormat" || in.OtherSignature == "strangerBeforeSameFormat" {
+			strangerSigns()
+		}
 		_, _, err := notation.SignOCI(ctx, s, repo, notation.SignOptions{SignerSignOptions: sso, ArtifactReference: signRef, UserMetadata: kvMap(in.Metadata)})
 		if err != nil {
 			return sc
 		}
-		// read the pushed signature back through the real repository client
+		if in.OtherSignature == "strangerAfterOtherFormat" || in.OtherSignature == "strangerAfterSameFormat" {
+			strangerSigns()
+		}
+		// read the pushed signature back through the real repository client (skipping the stranger's)
 		n := 0
 		err = repo.ListSignatures(ctx, desc, func(ms []ocispec.Descriptor) error {
 			for _, m := range ms {
@@ -1098,13 +1173,21 @@ func (w *world) sign(in Input, content []byte) *signedCase {
 				if err != nil {
 					return err
 				}
+				if e, err := signature.ParseEnvelope(bd.MediaType, b); err == nil {
+					if ec, err := e.Content(); err == nil && len(ec.SignerInfo.CertificateChain) > 0 {
+						chain := ec.SignerInfo.CertificateChain
+						if chain[len(chain)-1].Equal(w.strangerRoot) {
+							continue
+						}
+					}
+				}
 				sig, sigMT = b, bd.MediaType
 				n++
 			}
 			return nil
 		})
 		if err != nil || n != 1 {
-			panic(fmt.Sprintf("c07: expected exactly one pushed signature, got %d (%v)", n, err))
+			panic(fmt.Sprintf("c07: expected exactly one signature of the signer under test, got %d (%v)", n, err))
 		}
 	}
 	sc.obs.Signed = true
@@ -1137,7 +1220,7 @@ func (w *world) sign(in Input, content []byte) *signedCase {
 func (w *world) verify(sc *signedCase) Obs {
 	ctx := context.Background()
 	in, o := sc.in, sc.obs
-	v := w.sharedVerifier(in.ExactIdentity, in.Policy)
+	v := w.sharedVerifier(in.ExactIdentity, in.Policy, in.Identities)
 	var outcome *notation.VerificationOutcome
 	var returned ocispec.Descriptor
 	if in.Kind == "blob" {
@@ -1337,6 +1420,13 @@ func (w *world) genCase(c *common.Ctx) (Input, []byte) {
 	in.Signer = pick(c, signerKinds)
 	setKeyVia(&in, pick(c, []string{"rotated", "pluginConfig"}))
 	in.InFlight = "alone"
+	in.Identities, in.OtherSignature, in.Scheme, in.CertWindow = "plain", "none", "x509", "wide"
+	if chance(c, 0.5) {
+		in.Identities = pick(c, identityLists)
+	}
+	if chance(c, 0.35) {
+		in.Scheme, in.CertWindow = "signingAuthority", pick(c, certWindows) // only an envelope plugin chooses the scheme
+	}
 	in.Policy = Policy{VerifyTimestamp: "unset"}
 	if chance(c, 0.5) {
 		in.Policy = genPolicy(c)
@@ -1365,6 +1455,9 @@ func (w *world) genCase(c *common.Ctx) (Input, []byte) {
 	var content []byte
 	if in.Kind == "oci" {
 		in.Desc, content = w.genArtifact(c)
+		if chance(c, 0.3) {
+			in.OtherSignature = pick(c, otherSignatures)
+		}
 		in.ByTag = chance(c, 0.4)
 	} else {
 		bd := w.genBlob(c)
@@ -1489,6 +1582,15 @@ func count(c *common.Ctx, in Input, o Obs) {
 	}
 	c.Count("timeZone=" + in.TimeZone)
 	c.Count("inFlight=" + in.InFlight)
+	if in.ExactIdentity {
+		c.Count("identities=" + in.Identities)
+	}
+	if in.Kind == "oci" {
+		c.Count("otherSignature=" + in.OtherSignature)
+	}
+	if in.Signer == "pluginEnvelope" {
+		c.Count("envelopePluginScheme=" + in.Scheme + "/" + in.CertWindow)
+	}
 	c.Count(fmt.Sprintf("policy:tsa=%v,verifyTimestamp=%s", in.Policy.TSAStore, in.Policy.VerifyTimestamp))
 	c.Count(fmt.Sprintf("policy:named=%v", in.Policy.Named))
 	for _, kv := range in.Metadata {
@@ -1904,6 +2006,78 @@ func Run(c *common.Ctx) error {
 		}
 	}
 
+	// (2k) exact trusted identities with plugin-defined identities before / after / between the subject entries
+	for _, l := range identityLists {
+		for _, kind := range []string{"oci", "blob"} {
+			for _, f := range []string{"jws", "cose"} {
+				in, content := w.genCase(c)
+				for in.Kind != kind {
+					in, content = w.genCase(c)
+				}
+				in.Format, in.ExactIdentity, in.Identities = f, true, l
+				in.Tamper, in.ExtAttrs, in.TrailingNewline, in.Scheme, in.CertWindow = "faithful", "none", false, "x509", "wide"
+				in.Policy = Policy{VerifyTimestamp: "unset"}
+				in.Metadata = genKV(c, metadataKeys[:7], c.Rand.Intn(2))
+				if kind == "oci" {
+					in.Desc.Annotations = []KV{}
+				} else {
+					in.ContentMediaType, in.MediaTypeValid = pick(c, blobMediaTypes), true
+				}
+				in.VerifyMediaType, in.VerifyMetadata = "same", "all"
+				in.DurationNs = int64(pick(c, legalDurations))
+				emit(w.roundTrip(in, content))
+			}
+		}
+	}
+
+	// (2l) two signatures on one artifact through the registry entry points: a stranger's and the trusted signer's,
+	// in either order, in the same or in different envelope formats; notation.Verify must find the trusted one
+	for rep := 0; rep < 3; rep++ {
+		for on, x := range otherSignatures {
+			for fn, f := range []string{"jws", "cose"} {
+				in, content := w.genCase(c)
+				for in.Kind != "oci" {
+					in, content = w.genCase(c)
+				}
+				in.Format, in.OtherSignature = f, x
+				in.Signer = signerKinds[(rep+on+fn)%len(signerKinds)]
+				setKeyVia(&in, pick(c, []string{"rotated", "pluginConfig"}))
+				in.Tamper, in.ExtAttrs, in.Scheme, in.CertWindow = "faithful", "none", "x509", "wide"
+				in.Policy = Policy{VerifyTimestamp: "unset"}
+				in.Metadata = genKV(c, metadataKeys[:7], c.Rand.Intn(3))
+				in.Desc.Annotations = []KV{}
+				in.VerifyMetadata = pick(c, []string{"nothing", "all"})
+				in.DurationNs = int64(pick(c, legalDurations))
+				emit(w.roundTrip(in, content))
+			}
+		}
+	}
+
+	// (2m) signing-authority envelope plugins that mint the signing certificate at signing time: its notBefore and / or
+	// notAfter IS the (truncated) authentic signing time
+	for _, cw := range certWindows {
+		for _, kind := range []string{"oci", "blob"} {
+			for _, f := range []string{"jws", "cose"} {
+				in, content := w.genCase(c)
+				for in.Kind != kind {
+					in, content = w.genCase(c)
+				}
+				in.Signer, in.Format, in.Scheme, in.CertWindow = "pluginEnvelope", f, "signingAuthority", cw
+				setKeyVia(&in, pick(c, []string{"rotated", "pluginConfig"}))
+				in.Tamper, in.ExtAttrs, in.TrailingNewline = "faithful", pick(c, []string{"none", "nonCritical"}), false
+				in.Metadata = genKV(c, metadataKeys[:7], c.Rand.Intn(3))
+				if kind == "oci" {
+					in.Desc.Annotations = []KV{}
+				} else {
+					in.ContentMediaType, in.MediaTypeValid = pick(c, blobMediaTypes), true
+				}
+				in.VerifyMediaType, in.VerifyMetadata = "same", pick(c, []string{"nothing", "all"})
+				in.DurationNs = int64(pick(c, []time.Duration{0, time.Hour, 24 * time.Hour}))
+				emit(w.roundTrip(in, content))
+			}
+		}
+	}
+
 	// (3) random cases
 	for n := 0; n < random; n++ {
 		in, content := w.genCase(c)
@@ -1924,6 +2098,8 @@ func Run(c *common.Ctx) error {
 		"full matrix 6 key specs x 2 formats x 4 signers x {oci, blob} plus random cases (legal and illegal metadata / durations / media types, " +
 		"blob sizes 0 B..4 MiB, verification stating the same / no / another media type and none / all / unsigned metadata) plus verification after a short expiry; " +
 		"lagSec is the planned class of the verification delay (0 = before the expiry, ensured by clock alignment and re-tried otherwise). " +
+		"Identity lists: exact subjects with plugin-defined identities before / after / between them. Other signature: a stranger (trusted by no policy) signs the same artifact through SignOCI before or after the signer under test, in the same or the other envelope format; notation.Verify runs over both. " +
+		"Signing authority: the envelope plugin signs under notary.x509.signingAuthority with a certificate minted at signing time whose notBefore / notAfter / both equal the truncated signing time. " +
 		"Policy shapes: the applicable statement has / has no tsa store, verifyTimestamp unset / always / afterCertExpiry, wildcard or exact scope (oci), global or named statement picked by TrustPolicyName (blob); one verifier object per shape, reused. " +
 		"Metadata keys and values with white space at either end. " +
 		"In flight: pairs of blob calls (sign||sign, verify||verify, verify||sign) with the interleaving pinned by a reader that, inside its first Read, lets the other call run to completion (GOMAXPROCS(1)); " +
